@@ -435,16 +435,13 @@ impl RdbEngine {
                 for key in keys {
                     #[cfg(feature = "verif")]
                     crate::verif::yield_point(crate::verif::site::RDB_KEY, db_idx as u64, 0);
-                    // Get value
-                    match storage.get(db_idx, &key)? {
-                        GetResult::Found(value) => {
-                            // Get TTL if any
-                            let ttl = storage.ttl(db_idx, &key)?;
-                            
+                    // Get value and TTL as one consistent pair
+                    match storage.get_with_ttl(db_idx, &key)? {
+                        Some((value, ttl)) => {
                             // Write key-value pair
                             writer.write_key_value(&key, &value, ttl)?;
                         }
-                        _ => {
+                        None => {
                             // Key doesn't exist or expired, skip
                         }
                     }
